@@ -628,7 +628,7 @@ fn components(prop: &str) -> Value {
     })
 }
 
-pub const PROBES: [&str; 9] = [
+pub const PROBES: [&str; 10] = [
     "ok_handles_are_send_sync",
     "p1_cell_closure",
     "p2_rc_closure",
@@ -638,6 +638,7 @@ pub const PROBES: [&str; 9] = [
     "p6_refcell_closure",
     "p7_receiver_closure",
     "p8_rc_argument",
+    "p9_fnmut_closure",
 ];
 
 #[derive(Debug)]
@@ -691,8 +692,13 @@ pub fn run_probe(name: &str) -> ProbeVerdict {
         return ProbeVerdict::Accepted { native };
     }
     let errors: Vec<&str> = err.lines().filter(|l| l.contains("error[")).collect();
-    let threadsafety = errors.iter().any(|l| l.contains("error[E0277]") && (l.contains("cannot be shared between threads safely") || l.contains("cannot be sent between threads safely")));
-    let only_expected = errors.iter().all(|l| l.contains("error[E0277]") || l.contains("error[E0599]"));
+    // the expected refusals: a Send/Sync bound (E0277), or - for a closure that mutates its captured
+    // state - "this closure only implements FnMut" (E0525: concurrent calls would alias `&mut` state)
+    let threadsafety = errors.iter().any(|l| {
+        (l.contains("error[E0277]") && (l.contains("cannot be shared between threads safely") || l.contains("cannot be sent between threads safely")))
+            || (l.contains("error[E0525]") && l.contains("only implements `FnMut`"))
+    });
+    let only_expected = errors.iter().all(|l| l.contains("error[E0277]") || l.contains("error[E0599]") || l.contains("error[E0525]"));
     if threadsafety && only_expected {
         ProbeVerdict::Rejected
     } else {
@@ -861,7 +867,7 @@ pub fn cmd_run(args: &[String]) -> i32 {
         for (name, v) in results {
             match v {
                 ProbeVerdict::Rejected if name.starts_with("ok_") => probe_report.push(json!({"probe": name, "rustc": "accepted, as required"})),
-                ProbeVerdict::Rejected => probe_report.push(json!({"probe": name, "rustc": "rejected (E0277 Send/Sync)"})),
+                ProbeVerdict::Rejected => probe_report.push(json!({"probe": name, "rustc": "rejected (Send/Sync bound E0277, or Fn-not-FnMut E0525)"})),
                 ProbeVerdict::Accepted { native } => {
                     probe_report.push(json!({"probe": name, "rustc": "ACCEPTED", "native_run": native}));
                     let detail = if name.starts_with("ok_") {
@@ -901,7 +907,7 @@ pub fn cmd_run(args: &[String]) -> i32 {
     let rule = match prop.as_str() {
         "C16" => "each evaluation is one simulated run: a seeded workload (2-4 threads x 1-5 list operations on 1-3 shared lists, element type and Rust/script origin drawn per run) executed under one seeded schedule; non-trivial = at least one preemption of a still-runnable thread occurred; distinct = distinct hash of the full (thread, event kind, logical lock id / site) event sequence",
         "C11" => "each evaluation is one simulated run from a cold process image: a seeded lifecycle history (setup on the main thread, then 1-3 simulated threads x 2-14 operations on shared slots of runtimes, packages and handles, then a seeded teardown) under one seeded schedule; non-trivial = at least one preemption of a still-runnable thread; distinct = distinct hash of the full event sequence (interning, lock, host-call, clone/drop points)",
-        "C12" => "each evaluation is one simulated run from a cold process image: either 2-4 caller threads x 1-6 calls/clones/drops on shared handles of a 12-function corpus whose literals are drawn per run, with 0-2 background compile-call-drop threads (3 of 4 runs), or 2-3 threads racing runtime construction, compilation and a get_function signature matrix on the empty type registry (1 of 4 runs); non-trivial = at least one preemption; distinct = distinct hash of the full event sequence. Plus 8 safe-Rust probe programs compiled against the working tree.",
+        "C12" => "each evaluation is one simulated run from a cold process image: either 2-4 caller threads x 1-6 calls/clones/drops on shared handles of a 12-function corpus whose literals are drawn per run, with 0-2 background compile-call-drop threads (3 of 4 runs), or 2-3 threads racing runtime construction, compilation and a get_function signature matrix on the empty type registry (1 of 4 runs); non-trivial = at least one preemption; distinct = distinct hash of the full event sequence. Plus 9 safe-Rust probe programs compiled against the working tree.",
         "C15" => "each evaluation is one sequential history of 1-60 list operations over 3 aliased handle slots, executed on one simulated thread against the heap model; non-trivial = at least 3 operations; distinct = distinct hash of (element type, operation sequence with arguments and origins)",
         _ => "each evaluation is one simulated run",
     };
